@@ -238,6 +238,18 @@ func checkUnit(r *vk.Run, uc unitCase) {
 	}
 	pk := newPacker(uc)
 	in := base.AvPacket{PayloadType: pt(uc.Codec), Timestamp: uc.TimeMs, Payload: frameBytes(uc, units)}
+	if uc.Mode != "nalu" {
+		// the frame packer drops access-unit delimiters of its own codec (H.264 type 9, H.265 type 35), as
+		// the statement's sibling properties allow; every other unit must come through
+		var keep [][]byte
+		for _, u := range units {
+			if (uc.Codec == "avc" && u[0]&0x1f == 9) || (uc.Codec == "hevc" && u[0]>>1&0x3f == 35) {
+				continue
+			}
+			keep = append(keep, u)
+		}
+		units = keep
+	}
 	pkts := pk.Pack(in)
 	if len(pkts) == 0 {
 		fail("no-packets", "Pack returned nothing")
@@ -538,6 +550,16 @@ func main() {
 	// (3) frames of 1-3 units in AVCC and Annex-B packer modes
 	for _, codec := range []string{"avc", "hevc"} {
 		for _, mode := range []string{"avcc", "annexb"} {
+			// every NAL type as the first of two units (the frame packer looks at the types)
+			if codec == "avc" {
+				for t := 0; t <= 23; t++ {
+					ucs = append(ucs, unitCase{Codec: codec, Sizes: []int{6, 9}, Hdr: []byte{byte(0x60 | t)}, Limit: 8, Mode: mode, Clock: 90000, TimeMs: 80, FirstSeq: 9})
+				}
+			} else {
+				for t := 0; t <= 47; t++ {
+					ucs = append(ucs, unitCase{Codec: codec, Sizes: []int{6, 9}, Hdr: []byte{byte(t << 1), 0x01}, Limit: 8, Mode: mode, Clock: 90000, TimeMs: 80, FirstSeq: 9})
+				}
+			}
 			sz := []int{3, 8, 9, 20}
 			for _, a := range sz {
 				ucs = append(ucs, unitCase{Codec: codec, Sizes: []int{a}, Limit: 8, Mode: mode, Clock: 90000, TimeMs: 80, FirstSeq: 65535})
